@@ -15,6 +15,8 @@ Rules
                   by that expression where it is read (own module, and modules importing it under a name).
   A   aliases     `v = X.m` / `v = X` (X a pure reference, v and X's root assigned once, v's definition after X's in an enclosing
                   block) : reads of v become X.m.
+  V   values      `v = E` directly followed by the single statement reading v once (E: local names, constants, identity/type tests,
+                  conditional expressions) : the read becomes E.
   O   operator    attrgetter('a')(x) -> x.a ; attrgetter('a','b')(x) -> (x.a, x.b) ; itemgetter(k)(x) -> x[k] ;
                   methodcaller('m', *a)(x) -> x.m(*a) ; not_(x) -> not x ; truth(x) -> bool(x) ; is_/is_not/eq/ne/contains.
   F   filterfalse itertools.filterfalse(P, X) -> filter(lambda v: not P(v), X)   (P a pure reference / operator object)
@@ -23,8 +25,14 @@ Rules
   G   getattr     getattr(o, 'name') -> o.name ; getattr(o, A if c else B) -> getattr(o, A) if c else getattr(o, B)
   C   calls       (A if c else B)(args) -> A(args) if c else B(args)   (args atomic)
   D   dict tables {k1: v1, ..}.get(K[, d]) -> v1 if K == k1 else .. else d ; K in {..} -> K in (k1, ..)     (keys constant, K pure)
-  E   equality    (a, b) == (c, d) -> a == c and b == d (pure elements) ; B == True -> B ; B == False -> not B (B boolean-valued);
+  E   boolean     not (A and B) -> not A or not B ; not (A or B) -> not A and not B ;
+                  (a, b) == (c, d) -> a == c and b == d (pure elements) ; B == True -> B ; B == False -> not B (B boolean-valued);
                   not (a is b) -> a is not b ; not (a is not b) -> a is b ; not not B -> B
+  H   handlers    except (A, B) as e: v = X if isinstance(e, A) else Y; REST  ->  except A as e: v = X; REST  except B as e: v = Y; REST
+  T   sequences   tuple(..)/list(..) of a statically known pure sequence (display, unconditioned comprehension over one,
+                  itertools.chain / chain.from_iterable of such) -> the display
+  NT  namedtuple  `a, b = Pair(x=X, y=Y)` (Pair a plain typing.NamedTuple of the module, unpacked at once) -> `a, b = (X, Y)`
+  M   mappings    dict(ChainMap(a, b)) -> {**b, **a}
   L   for-else    `for ..: BODY else: E` with no `break` in BODY -> the loop followed by E
   X   statements  an expression statement `A if c else B` -> if c: A else: B
 """
@@ -85,6 +93,9 @@ def _immutable(e: ast.AST, allow_display: bool = False) -> bool:
         return all(_immutable(x, allow_display) for x in e.elts)
     if isinstance(e, ast.UnaryOp) and isinstance(e.operand, ast.Constant):
         return True
+    if isinstance(e, ast.BinOp) and isinstance(e.op, ast.Add):
+        return _immutable(e.left) and _immutable(e.right) and not _ref(e.left) and not _ref(e.right) or \
+            all(isinstance(x, ast.Constant) or _ref(x) or isinstance(x, ast.BinOp) and isinstance(x.op, ast.Add) and _immutable(x) for x in (e.left, e.right))
     if _opobj(e) is not None:
         return True
     if isinstance(e, ast.Call) and dotted(e.func) == 'frozenset' and len(e.args) <= 1 and not e.keywords:
@@ -129,10 +140,42 @@ def _not(e: ast.expr) -> ast.expr:
 # ------------------------------------------------------------------------------------------------
 
 class _Rewriter(ast.NodeTransformer):
-    def __init__(self) -> None:
+    def __init__(self, namedtuples: Optional[Dict[str, List[str]]] = None) -> None:
         self.changed = 0
         self.log: List[str] = []
         self._fresh = 0
+        self.namedtuples = namedtuples or {}        # class name -> field names in order (typing.NamedTuple classes of the module)
+
+    def visit_Assign(self, node: ast.Assign) -> ast.AST:
+        self.generic_visit(node)
+        # NT: `a, b = Pair(x=X, y=Y)` with Pair a typing.NamedTuple of the module: the tuple is unpacked at once, so this is
+        # `a, b = (X, Y)` (arguments pure, or already in field order)
+        if len(node.targets) == 1 and isinstance(node.targets[0], (ast.Tuple, ast.List)) and isinstance(node.value, ast.Call) and \
+                isinstance(node.value.func, ast.Name) and node.value.func.id in self.namedtuples:
+            fields = self.namedtuples[node.value.func.id]
+            c = node.value
+            if not any(isinstance(a, ast.Starred) for a in c.args) and all(k.arg in fields for k in c.keywords) and \
+                    len(c.args) + len(c.keywords) == len(fields) == len(node.targets[0].elts):
+                by_name: Dict[str, ast.expr] = {f: a for f, a in zip(fields, c.args)}
+                dup = False
+                for k in c.keywords:
+                    if k.arg in by_name:
+                        dup = True
+                    by_name[k.arg] = k.value      # type: ignore[index]
+                in_order = [k.arg for k in c.keywords] == fields[len(c.args):]
+                if not dup and (in_order or all(_pure(v) for v in by_name.values())):
+                    self._hit('NT namedtuple-unpack', node)
+                    node.value = _loc(ast.Tuple(elts=[by_name[f] for f in fields], ctx=ast.Load()), c)
+        # parallel assignment of displays: `a, b = (X, Y)` with X, Y not reading a or b is `a = X; b = Y`
+        if len(node.targets) == 1 and isinstance(node.targets[0], (ast.Tuple, ast.List)) and isinstance(node.value, (ast.Tuple, ast.List)) and \
+                len(node.targets[0].elts) == len(node.value.elts) and all(isinstance(t, ast.Name) for t in node.targets[0].elts) and \
+                not any(isinstance(v, ast.Starred) for v in node.value.elts):
+            tn = {t.id for t in node.targets[0].elts}      # type: ignore[attr-defined]
+            if len(tn) == len(node.targets[0].elts) and not any(isinstance(x, ast.Name) and x.id in tn for v in node.value.elts for x in ast.walk(v)) \
+                    and self.namedtuples.get('<split-parallel>'):
+                self._hit('P parallel-assign', node)
+                return [_loc(ast.Assign(targets=[t], value=v), node) for t, v in zip(node.targets[0].elts, node.value.elts)]
+        return node
 
     def _hit(self, rule: str, node: ast.AST) -> None:
         self.changed += 1
@@ -142,6 +185,17 @@ class _Rewriter(ast.NodeTransformer):
     def visit_Call(self, node: ast.Call) -> ast.AST:
         self.generic_visit(node)
         f = node.func
+        # C: f(*(a, b)) -> f(a, b) ; f(**{'k': v}) -> f(k=v)
+        if any(isinstance(a, ast.Starred) and isinstance(a.value, (ast.Tuple, ast.List)) and
+               not any(isinstance(x, ast.Starred) for x in a.value.elts) for a in node.args):
+            new_args: List[ast.expr] = []
+            for a in node.args:
+                if isinstance(a, ast.Starred) and isinstance(a.value, (ast.Tuple, ast.List)) and not any(isinstance(x, ast.Starred) for x in a.value.elts):
+                    new_args += a.value.elts
+                else:
+                    new_args.append(a)
+            node.args = new_args
+            self._hit('C splat', node)
         # O: operator object applied
         ob = _opobj(f)
         if ob is not None and len(node.args) == 1 and not node.keywords and not isinstance(node.args[0], ast.Starred):
@@ -227,6 +281,21 @@ class _Rewriter(ast.NodeTransformer):
             self._hit('C call-ifexp', node)
             mk2 = lambda fn: ast.Call(func=fn, args=copy.deepcopy(node.args), keywords=copy.deepcopy(node.keywords))  # noqa: E731
             return self.visit(_loc(ast.IfExp(test=f.test, body=mk2(f.body), orelse=mk2(f.orelse)), node))
+        # M: dict(ChainMap(a, b)) is {**b, **a} (same keys, values and insertion order)
+        if d == 'dict' and len(node.args) == 1 and not node.keywords and isinstance(node.args[0], ast.Call):
+            inner_c = node.args[0]
+            di = dotted(inner_c.func)
+            if di in ('collections.ChainMap', 'ChainMap') and inner_c.args and not inner_c.keywords and all(_ref(a) for a in inner_c.args):
+                self._hit('M chainmap', node)
+                vals = [copy.deepcopy(a) for a in reversed(inner_c.args)]
+                return _loc(ast.Dict(keys=[None] * len(vals), values=vals), node)
+        # T: tuple(...) / list(...) of statically known sequences
+        if d in ('tuple', 'list') and len(node.args) == 1 and not node.keywords:
+            seq = self._static_seq(node.args[0])
+            if seq is not None and (d == 'tuple' or True):
+                self._hit('T ' + d, node)
+                mk3 = ast.Tuple if d == 'tuple' else ast.List
+                return _loc(mk3(elts=seq, ctx=ast.Load()), node)
         # N: next / any / all over a comprehension on a constant tuple
         if d in ('next', 'any', 'all') and node.args and isinstance(node.args[0], (ast.GeneratorExp, ast.ListComp)) and not node.keywords:
             new2 = self._unroll(d, node)
@@ -246,6 +315,62 @@ class _Rewriter(ast.NodeTransformer):
                 self._hit('D dict.get', node)
                 return self.visit(_loc(cur, node))
         return node
+
+    def _static_seq(self, e: ast.expr) -> Optional[List[ast.expr]]:
+        """Elements of an iterable expression when they are statically known and pure: a tuple/list display, a comprehension
+        without conditions over such a sequence, itertools.chain / chain.from_iterable of such sequences."""
+        if isinstance(e, (ast.Tuple, ast.List)) and all(_immutable(x) for x in e.elts) and not any(isinstance(x, ast.Starred) for x in e.elts):
+            return [copy.deepcopy(x) for x in e.elts]
+        if isinstance(e, (ast.GeneratorExp, ast.ListComp)) and len(e.generators) == 1 and not e.generators[0].ifs and \
+                not e.generators[0].is_async:
+            g = e.generators[0]
+            base = self._static_seq(g.iter)
+            if base is None or len(base) > 24:
+                return None
+            out: List[ast.expr] = []
+            for item in base:
+                if isinstance(g.target, ast.Name):
+                    m = {g.target.id: item}
+                elif isinstance(g.target, ast.Tuple) and isinstance(item, ast.Tuple) and len(item.elts) == len(g.target.elts) and \
+                        all(isinstance(t, ast.Name) for t in g.target.elts):
+                    m = {t.id: v for t, v in zip(g.target.elts, item.elts)}       # type: ignore[attr-defined]
+                else:
+                    return None
+                if any(isinstance(x, (ast.Lambda, ast.ListComp, ast.SetComp, ast.DictComp, ast.GeneratorExp)) for x in ast.walk(e.elt)):
+                    return None
+
+                class Sub(ast.NodeTransformer):
+                    def visit_Name(self_, nd: ast.Name) -> ast.AST:     # noqa: N805
+                        if isinstance(nd.ctx, ast.Load) and nd.id in m:
+                            return copy.deepcopy(m[nd.id])
+                        return nd
+                val = Sub().visit(copy.deepcopy(e.elt))
+                if not _immutable(val):
+                    return None
+                out.append(val)
+            return out
+        if isinstance(e, ast.Call) and not e.keywords:
+            d = dotted(e.func)
+            if d is not None and d.endswith('chain.from_iterable') and d.split('.')[0] in ITERTOOLS + ('chain',) and len(e.args) == 1:
+                outer = self._static_seq(e.args[0])
+                if outer is None:
+                    return None
+                flat: List[ast.expr] = []
+                for x in outer:
+                    inner = self._static_seq(x)
+                    if inner is None:
+                        return None
+                    flat += inner
+                return flat
+            if d is not None and (d == 'chain' or d.endswith('.chain') and d.split('.')[0] in ITERTOOLS):
+                flat2: List[ast.expr] = []
+                for x in e.args:
+                    inner = self._static_seq(x)
+                    if inner is None:
+                        return None
+                    flat2 += inner
+                return flat2
+        return None
 
     @staticmethod
     def _const_dict(e: ast.Dict) -> bool:
@@ -389,6 +514,11 @@ class _Rewriter(ast.NodeTransformer):
     # -- operators -------------------------------------------------------------------------------
     def visit_BinOp(self, node: ast.BinOp) -> ast.AST:
         self.generic_visit(node)
+        if isinstance(node.op, ast.Add) and isinstance(node.left, ast.Constant) and isinstance(node.right, ast.Constant) and \
+                type(node.left.value) is type(node.right.value) and isinstance(node.left.value, (str, int, tuple)) and \
+                not isinstance(node.left.value, bool):
+            self._hit('K fold', node)
+            return _loc(ast.Constant(value=node.left.value + node.right.value), node)
         if isinstance(node.op, ast.Mod) and isinstance(node.left, ast.Constant) and isinstance(node.left.value, str):
             tmpl = node.left.value
             args = list(node.right.elts) if isinstance(node.right, ast.Tuple) else None
@@ -417,6 +547,30 @@ class _Rewriter(ast.NodeTransformer):
                 return node
             self._hit('S percent', node)
             return _loc(ast.JoinedStr(values=values), node)
+        return node
+
+    def visit_JoinedStr(self, node: ast.JoinedStr) -> ast.AST:
+        self.generic_visit(node)
+        vals: List[ast.expr] = []
+        changed = False
+        for v in node.values:
+            if isinstance(v, ast.FormattedValue) and isinstance(v.value, ast.Constant) and isinstance(v.value.value, str) and \
+                    v.conversion == -1 and v.format_spec is None:
+                v = ast.Constant(value=v.value.value)
+                changed = True
+            if isinstance(v, ast.Constant) and vals and isinstance(vals[-1], ast.Constant):
+                vals[-1] = ast.Constant(value=str(vals[-1].value) + str(v.value))
+                changed = changed or True
+            else:
+                vals.append(v)
+        if changed and len(vals) != len(node.values) or any(a is not b for a, b in zip(vals, node.values)):
+            if all(isinstance(v, ast.Constant) for v in vals):
+                self._hit('S const-fstring', node)
+                return _loc(ast.Constant(value=''.join(str(v.value) for v in vals)), node)     # type: ignore[attr-defined]
+            if changed:
+                self._hit('S fstring-merge', node)
+                node.values = vals
+                return _loc(node, node)
         return node
 
     def visit_Compare(self, node: ast.Compare) -> ast.AST:
@@ -454,6 +608,11 @@ class _Rewriter(ast.NodeTransformer):
             if isinstance(x, ast.UnaryOp) and isinstance(x.op, ast.Not) and _boolean_valued(x.operand):
                 self._hit('E not-not', node)
                 return x.operand
+            if isinstance(x, ast.BoolOp):
+                # De Morgan: same operands evaluated in the same order with the same short-circuit, and both sides yield a bool
+                self._hit('E de-morgan', node)
+                flip_op = ast.Or() if isinstance(x.op, ast.And) else ast.And()
+                return _loc(ast.BoolOp(op=flip_op, values=[self.visit(_loc(_not(v), v)) for v in x.values]), node)
         return node
 
     # -- statements ------------------------------------------------------------------------------
@@ -476,6 +635,61 @@ class _Rewriter(ast.NodeTransformer):
             node.orelse = []
             return [node] + tail
         return node
+
+    def visit_Try(self, node: ast.Try) -> ast.AST:
+        self.generic_visit(node)
+        new_handlers: List[ast.ExceptHandler] = []
+        for h in node.handlers:
+            split = self._split_handler(h)
+            if split is None:
+                new_handlers.append(h)
+            else:
+                self._hit('H handler-split', h)
+                new_handlers += split
+        node.handlers = new_handlers
+        return node
+
+    def _split_handler(self, h: ast.ExceptHandler) -> Optional[List[ast.ExceptHandler]]:
+        """except (A, B, C) as e:  v = X1 if isinstance(e, T1) else X2 if isinstance(e, T2) else Z ; REST
+           ->  except T1 as e: v = X1; REST   except T2 as e: v = X2; REST   [except (A, B, C) as e: v = Z; REST]
+        Exact when every class of every Ti is (textually) one of the caught classes: the first matching clause is the first
+        matching test.  The residual clause is dropped when the Ti together name every caught class."""
+        if h.name is None or h.type is None or not h.body:
+            return None
+        st = h.body[0]
+        if not (isinstance(st, ast.Assign) and len(st.targets) == 1 and isinstance(st.targets[0], ast.Name) and isinstance(st.value, ast.IfExp)):
+            return None
+        caught = [dotted(x) for x in (h.type.elts if isinstance(h.type, ast.Tuple) else [h.type])]
+        if any(c is None for c in caught):
+            return None
+        rows: List[Tuple[ast.expr, ast.expr]] = []
+        cur: ast.expr = st.value
+        while isinstance(cur, ast.IfExp):
+            t = cur.test
+            if not (isinstance(t, ast.Call) and dotted(t.func) == 'isinstance' and len(t.args) == 2 and isinstance(t.args[0], ast.Name)
+                    and t.args[0].id == h.name and not t.keywords):
+                return None
+            names = [dotted(x) for x in (t.args[1].elts if isinstance(t.args[1], ast.Tuple) else [t.args[1]])]
+            if not names or any(n is None or n not in caught for n in names):
+                return None
+            rows.append((t.args[1], cur.body))
+            cur = cur.orelse
+        if len(rows) < 2:
+            return None
+        covered = {dotted(x) for tp, _ in rows for x in (tp.elts if isinstance(tp, ast.Tuple) else [tp])}
+        out: List[ast.ExceptHandler] = []
+
+        def mk(tp: ast.expr, val: ast.expr) -> ast.ExceptHandler:
+            if isinstance(tp, ast.Tuple) and len(tp.elts) == 1:
+                tp = tp.elts[0]
+            first = ast.Assign(targets=[copy.deepcopy(st.targets[0])], value=copy.deepcopy(val))
+            nh = ast.ExceptHandler(type=copy.deepcopy(tp), name=h.name, body=[first] + [copy.deepcopy(b) for b in h.body[1:]])
+            return _loc(nh, h)      # type: ignore[return-value]
+        for tp, val in rows:
+            out.append(mk(tp, val))
+        if covered != set(caught):
+            out.append(mk(h.type, cur))
+        return out
 
     def visit_Expr(self, node: ast.Expr) -> ast.AST:
         self.generic_visit(node)
@@ -775,6 +989,114 @@ def _propagate_aliases(fn: ast.AST) -> int:
     return n_changed
 
 
+_PURE_BUILTINS = ('isinstance', 'issubclass', 'callable')
+
+
+def _local_pure(e: ast.AST) -> bool:
+    """Reads only local names, constants and type tests: its value cannot be changed by anything evaluated in between."""
+    for x in ast.walk(e):
+        if isinstance(x, (ast.Constant, ast.Name, ast.IfExp, ast.BoolOp, ast.And, ast.Or, ast.Not, ast.UnaryOp, ast.Load, ast.Tuple,
+                          ast.Is, ast.IsNot, ast.expr_context)):
+            continue
+        if isinstance(x, ast.Compare) and all(isinstance(o, (ast.Is, ast.IsNot)) for o in x.ops):
+            continue
+        if isinstance(x, ast.Call) and isinstance(x.func, ast.Name) and x.func.id in _PURE_BUILTINS and not x.keywords:
+            continue
+        return False
+    return True
+
+
+def _forward_subst(fn: ast.AST) -> int:
+    """`v = E` immediately followed by a statement that reads v once in its header, for EVERY assignment of v, and no other
+    read of v in the function (each read is then reached by exactly the assignment before it).  E is built from local names,
+    constants, identity / type tests and conditional expressions, or is a reference to a global (module attribute chain).
+    The read is replaced by E, the assignment dropped."""
+    if not isinstance(getattr(fn, 'body', None), list):
+        return 0
+    loads: Dict[str, int] = {}
+    stores: Dict[str, int] = {}
+    for x in ast.walk(fn):
+        if isinstance(x, ast.Name):
+            if isinstance(x.ctx, ast.Load):
+                loads[x.id] = loads.get(x.id, 0) + 1
+            else:
+                stores[x.id] = stores.get(x.id, 0) + 1
+        elif isinstance(x, (ast.Global, ast.Nonlocal)):
+            for nm in x.names:
+                stores[nm] = stores.get(nm, 0) + 99
+        elif isinstance(x, ast.ExceptHandler) and x.name:
+            stores[x.name] = stores.get(x.name, 0) + 1
+        elif isinstance(x, ast.arg):
+            stores[x.arg] = stores.get(x.arg, 0) + 99
+
+    def headers(st: ast.stmt) -> List[ast.AST]:
+        if isinstance(st, (ast.Expr, ast.Assign, ast.AnnAssign, ast.AugAssign, ast.Return)):
+            return [st.value] if getattr(st, 'value', None) is not None else []
+        if isinstance(st, ast.If):
+            return [st.test]
+        if isinstance(st, (ast.For, ast.AsyncFor)):
+            return [st.iter]
+        if isinstance(st, ast.Raise):
+            return [x for x in (st.exc, st.cause) if x is not None]
+        return []
+
+    def ok_value(e: ast.expr) -> bool:
+        if isinstance(e, (ast.IfExp, ast.Constant)) and _local_pure(e):
+            return True
+        d = dotted(e)
+        if d is not None and isinstance(e, ast.Attribute):
+            root = d.split('.')[0]
+            return root not in stores and root not in ('self', 'cls')
+        return False
+    pairs: Dict[str, List[Tuple[List[ast.stmt], ast.stmt, ast.stmt]]] = {}
+
+    def block(stmts: List[ast.stmt]) -> None:
+        for i, st in enumerate(stmts):
+            if isinstance(st, ast.Assign) and len(st.targets) == 1 and isinstance(st.targets[0], ast.Name) and i + 1 < len(stmts):
+                v = st.targets[0].id
+                nxt = stmts[i + 1]
+                if ok_value(st.value) and not any(isinstance(y, (ast.NamedExpr, ast.Lambda, ast.ListComp, ast.SetComp, ast.DictComp, ast.GeneratorExp))
+                                                  for h in headers(nxt) for y in ast.walk(h)):
+                    n_reads = sum(1 for h in headers(nxt) for y in ast.walk(h) if isinstance(y, ast.Name) and y.id == v and isinstance(y.ctx, ast.Load))
+                    if n_reads == 1:
+                        pairs.setdefault(v, []).append((stmts, st, nxt))
+            for fld in ('body', 'orelse', 'finalbody'):
+                sub = getattr(st, fld, None)
+                if isinstance(sub, list) and sub and isinstance(sub[0], ast.stmt) and not isinstance(st, (ast.FunctionDef, ast.AsyncFunctionDef, ast.ClassDef)):
+                    block(sub)
+            for h in getattr(st, 'handlers', []) or []:
+                block(h.body)
+    block(fn.body)      # type: ignore[attr-defined]
+    n_changed = 0
+    for v, ps in pairs.items():
+        if not (stores.get(v) == len(ps) == loads.get(v)):
+            continue
+        # a read directly after its definition in the same block: no other definition can reach it
+        for stmts, st, nxt in ps:
+            done = False
+            for h in headers(nxt):
+                if isinstance(h, ast.Name) and h.id == v:
+                    for fld, old in ast.iter_fields(nxt):
+                        if old is h:
+                            setattr(nxt, fld, _loc(copy.deepcopy(st.value), h))
+                            done = True
+                    continue
+                for par in ast.walk(h):
+                    for fld, old in ast.iter_fields(par):
+                        if isinstance(old, ast.Name) and old.id == v and isinstance(old.ctx, ast.Load):
+                            setattr(par, fld, _loc(copy.deepcopy(st.value), old))
+                            done = True
+                        elif isinstance(old, list):
+                            for k, o in enumerate(old):
+                                if isinstance(o, ast.Name) and o.id == v and isinstance(o.ctx, ast.Load):
+                                    old[k] = _loc(copy.deepcopy(st.value), o)
+                                    done = True
+            if done:
+                stmts.remove(st)
+                n_changed += 1
+    return n_changed
+
+
 def _in_nested_scope(n: ast.AST, parents: Dict[int, ast.AST], fn: ast.AST) -> bool:
     cur = parents.get(id(n))
     while cur is not None and cur is not fn:
@@ -794,30 +1116,52 @@ def _triggers(tree: ast.Module) -> bool:
             f = x.func
             if isinstance(f, (ast.Call, ast.IfExp)):
                 return True
+            if any(isinstance(a, ast.Starred) and isinstance(a.value, (ast.Tuple, ast.List, ast.Call)) for a in x.args):
+                return True
             if isinstance(f, ast.Attribute) and (f.attr == 'format' and isinstance(f.value, ast.Constant) or f.attr == 'filterfalse' or
                                                  f.attr == 'get' and isinstance(f.value, ast.Dict)):
                 return True
             d = dotted(f)
-            if d in ('getattr', 'filterfalse') or _opname(f) is not None and _opname(f) not in ('attrgetter', 'itemgetter', 'methodcaller'):
+            if d in ('getattr', 'filterfalse') or d == 'dict' and len(x.args) == 1 and isinstance(x.args[0], ast.Call) or d in ('tuple', 'list') and len(x.args) == 1 and isinstance(x.args[0], (ast.Call, ast.GeneratorExp, ast.ListComp, ast.Tuple)) or _opname(f) is not None and _opname(f) not in ('attrgetter', 'itemgetter', 'methodcaller'):
                 return True
             if d in ('next', 'any', 'all') and x.args and isinstance(x.args[0], (ast.GeneratorExp, ast.ListComp)) and \
                     isinstance(x.args[0].generators[0].iter, (ast.Tuple, ast.List)):
                 return True
         elif isinstance(x, ast.BinOp) and isinstance(x.op, ast.Mod) and isinstance(x.left, ast.Constant) and isinstance(x.left.value, str):
             return True
+        elif isinstance(x, ast.BinOp) and isinstance(x.op, ast.Add) and isinstance(x.left, ast.Constant) and isinstance(x.right, ast.Constant):
+            return True
         elif isinstance(x, (ast.For, ast.AsyncFor, ast.While)) and x.orelse:
             return True
         elif isinstance(x, ast.Compare) and len(x.ops) == 1 and isinstance(x.ops[0], (ast.Eq, ast.NotEq)) and (
                 isinstance(x.left, ast.Tuple) or any(isinstance(c, ast.Constant) and isinstance(c.value, bool) for c in [x.left] + x.comparators)):
             return True
-        elif isinstance(x, ast.UnaryOp) and isinstance(x.op, ast.Not) and isinstance(x.operand, (ast.Compare, ast.UnaryOp)):
+        elif isinstance(x, ast.UnaryOp) and isinstance(x.op, ast.Not) and isinstance(x.operand, (ast.Compare, ast.UnaryOp, ast.BoolOp)):
             return True
         elif isinstance(x, ast.Expr) and isinstance(x.value, ast.IfExp):
             return True
+        elif isinstance(x, ast.ExceptHandler) and x.body and isinstance(x.body[0], ast.Assign) and isinstance(x.body[0].value, ast.IfExp):
+            return True
+        elif isinstance(x, ast.FormattedValue) and isinstance(x.value, ast.Constant):
+            return True
+        elif isinstance(x, ast.ClassDef) and any(dotted(b) in ('NamedTuple', 'typing.NamedTuple') for b in x.bases):
+            return True
         elif isinstance(x, ast.Assign) and len(x.targets) == 1 and isinstance(x.targets[0], ast.Name) and \
-                isinstance(x.value, ast.Attribute) and _ref(x.value):
+                (isinstance(x.value, ast.Attribute) and _ref(x.value) or isinstance(x.value, (ast.IfExp, ast.Constant))):
             return True
     return False
+
+
+def _namedtuples(tree: ast.Module) -> Dict[str, List[str]]:
+    out: Dict[str, List[str]] = {}
+    for st in tree.body:
+        if isinstance(st, ast.ClassDef) and any(dotted(b) in ('NamedTuple', 'typing.NamedTuple') for b in st.bases):
+            fields = [x.target.id for x in st.body if isinstance(x, ast.AnnAssign) and isinstance(x.target, ast.Name)]
+            # only plain field declarations (a default would make arity checks necessary) and no __new__ override
+            if fields and not any(isinstance(x, ast.AnnAssign) and x.value is not None for x in st.body) and \
+                    not any(isinstance(x, (ast.FunctionDef, ast.AsyncFunctionDef)) and x.name in ('__new__', '__init__') for x in st.body):
+                out[st.name] = fields
+    return out
 
 
 def canonical(prog: Program, known_globals: Optional[Set[str]] = None) -> Program:
@@ -834,7 +1178,7 @@ def canonical(prog: Program, known_globals: Optional[Set[str]] = None) -> Progra
         defs: Dict[Tuple[str, str], ast.expr] = {}
         for m in prog.modules.values():
             binds = _module_level_bindings(m.tree)
-            for name, sts in binds.items():
+            for name, sts in sorted(binds.items(), key=lambda kv: getattr(kv[1][0], 'lineno', 0)):
                 if f'{m.name}.{name}' in known_globals or len(sts) != 1:
                     continue
                 st = sts[0]
@@ -847,6 +1191,18 @@ def canonical(prog: Program, known_globals: Optional[Set[str]] = None) -> Progra
                 assert val is not None
                 if any(isinstance(x, ast.Global) and name in x.names for x in ast.walk(m.tree)):
                     continue
+                # earlier new constants of the module are expanded inside the value, which is then canonicalised itself
+                # (`tuple(chain.from_iterable(f for f, _ in TABLE))` becomes a tuple display)
+                earlier = {n2: v2 for (m2, n2), v2 in defs.items() if m2 == m.name}
+                if earlier and any(isinstance(x, ast.Name) and x.id in earlier for x in ast.walk(val)):
+                    sub0 = _ConstSubst(earlier, {})
+                    sub0.in_func = 1
+                    sub0.shadow = [set()]
+                    val = sub0.visit(copy.deepcopy(val))
+                if not isinstance(val, ast.Constant) and not _ref(val):
+                    rw0 = _Rewriter()
+                    val = rw0.visit(copy.deepcopy(val))
+                    ast.fix_missing_locations(val)
                 if _immutable(val):
                     defs[(m.name, name)] = val
                 elif _immutable(val, allow_display=True) and _readonly_uses(all_trees, name, st):
@@ -923,7 +1279,8 @@ def canonical(prog: Program, known_globals: Optional[Set[str]] = None) -> Progra
             k = 0
             for fn in [x for x in ast.walk(tree) if isinstance(x, (ast.FunctionDef, ast.AsyncFunctionDef))]:
                 k += _propagate_aliases(fn)
-            rw = _Rewriter()
+                k += _forward_subst(fn)
+            rw = _Rewriter(_namedtuples(tree))
             rw.visit(tree)
             if rw.changed:
                 log.append(f'{m.rel}: ' + ', '.join(rw.log[:12]))
